@@ -73,7 +73,7 @@ def make_env(src, ek):
             if v != w:
                 env[v] = "WRONGENV"
     for w in cands:
-        env[w] = "E{" + w + "}$$"
+        env[w] = "" if ek == "empty" else "E{" + w + "}$$"
     return env
 
 
@@ -232,7 +232,7 @@ def run(chk):
     cfg = flow.cfg_text(constants={"MaxLen": maxlen},
                         invariants=["TypeOK", "MachineIsReplacement", "IdentityWithoutDollar", "Emit"],
                         properties=["NoRescan"])
-    r, n = flow.run_g(chk, "MC_C04_G", cfg, replay_g,
+    r, n = flow.run_g(chk, "MC_C04_G", cfg, replay_g, history_ok=True,
                       nontrivial=nontrivial_g,
                       sample_every=50021, timeout=3000)
     chk.exhaustive = True
@@ -251,12 +251,16 @@ def run(chk):
 
         def describe(i, rec, clause, verdict):
             out2, nm2 = observe(rec["_src"], dict(rec["_mapping"]), rec["_env"])
+            cls = {"clause": clause}
             if out2 != rec["_out"]:
-                raise MachineryError("recorded execution not reproducible")
+                # substitute() is a function of its arguments and the environment: another answer to the same
+                # question is a disagreement in its own right, not a fault of the recording
+                clause = clause + " (asked again with the same arguments the answer was another one)"
+                cls["depends_on_history"] = True
             return {"input": {"src": rec["_src"], "mapping": rec["_mapping"], "env": rec["_env"]},
-                    "observed": rec["_out"], "observed_isname": rec["_nm"],
-                    "spec_outcome_kind": verdict and verdict.get("want"),
-                    "class": {"clause": clause}}
+                    "observed": rec["_out"], "observed_again": out2, "observed_isname": rec["_nm"],
+                    "spec_outcome_kind": verdict and verdict.get("want"), "clause": clause,
+                    "class": cls}
 
         flow.run_v(chk, "MC_C04_V", vcfg, recs, describe,
                    nontrivial=lambda rec, v: "$" in rec["_src"])
